@@ -2,6 +2,7 @@ package core
 
 import (
 	"context"
+	"os"
 	"path"
 	"time"
 
@@ -103,10 +104,13 @@ func (s *zzDKGStore) GetCurrent(id string) (*dkg.DBState, error) {
 	}
 	return dkg.NewFreshState(id), nil
 }
-func (s *zzDKGStore) GetFinished(string) (*dkg.DBState, error)            { return s.finished, nil }
-func (s *zzDKGStore) SaveCurrent(_ string, st *dkg.DBState) error          { s.current = st; return nil }
-func (s *zzDKGStore) SaveFinished(_ string, st *dkg.DBState) error         { s.current, s.finished = st, st; return nil }
-func (s *zzDKGStore) Close() error                                          { return nil }
+func (s *zzDKGStore) GetFinished(string) (*dkg.DBState, error)    { return s.finished, nil }
+func (s *zzDKGStore) SaveCurrent(_ string, st *dkg.DBState) error { s.current = st; return nil }
+func (s *zzDKGStore) SaveFinished(_ string, st *dkg.DBState) error {
+	s.current, s.finished = st, st
+	return nil
+}
+func (s *zzDKGStore) Close() error                                              { return nil }
 func (s *zzDKGStore) MigrateFromGroupfile(string, *key.Group, *key.Share) error { return nil }
 
 // ZZ_C15_files: every file that receives the private key or the share (key file, share file, DKG database)
@@ -115,13 +119,26 @@ func ZZ_C15_files() {
 	sch := zzfake.Scheme(crypto.DefaultSchemeID)
 	pair, sh, g := zzSecretNode(sch)
 	dir := zz.TempDir("c15")
+	// the file may already exist with loose permissions (a key folder restored with a plain copy, a file left by
+	// another tool): writing the secret must still end with an owner-only file
+	preexisting := zz.Bool("file.already_exists_world_readable")
+	pre := func(name string) string {
+		f := path.Join(dir, name)
+		if preexisting {
+			if err := os.WriteFile(f, []byte("previous content"), 0o644); err != nil {
+				panic(err)
+			}
+			zz.Tag("preexisting_loose_file")
+		}
+		return f
+	}
 	switch zz.Choose("writer", 3) {
 	case 0:
 		zz.Tag("file=key_pair")
-		zz.Assert("save_key_pair_ok", key.Save(path.Join(dir, "drand_id.private"), pair, true) == nil)
+		zz.Assert("save_key_pair_ok", key.Save(pre("drand_id.private"), pair, true) == nil)
 	case 1:
 		zz.Tag("file=share")
-		zz.Assert("save_share_ok", key.Save(path.Join(dir, "dist_key.private"), sh, true) == nil)
+		zz.Assert("save_share_ok", key.Save(pre("dist_key.private"), sh, true) == nil)
 	case 2:
 		zz.Tag("file=dkg.db")
 		st, err := dkg.NewDKGStore(dir)
